@@ -162,7 +162,7 @@ function opts(op) {
   return op.noopts ? undefined : o;
 }
 
-function runOp(parsers, named, op) {
+function runOp(parsers, named, op, rebuild) {
   const p = parsers[op.p ?? 0];
   switch (op.op) {
     case "validate": {
@@ -232,10 +232,12 @@ function runOp(parsers, named, op) {
     }
     case "ctxseq": {
       // a history of schemaWithContext calls on one context
-      const ctx = new I.SchemaPrintingContext({
-        refPathTemplate: op.template ?? "#/components/schemas/{name}",
-        definitionContainerKey: op.container ?? null,
-      });
+      const mk = () =>
+        new I.SchemaPrintingContext({
+          refPathTemplate: op.template ?? "#/components/schemas/{name}",
+          definitionContainerKey: op.container ?? null,
+        });
+      const ctx = mk();
       const outs = [];
       for (const idx of op.calls) {
         try {
@@ -244,7 +246,40 @@ function runOp(parsers, named, op) {
           outs.push(classify(e));
         }
       }
-      return outs.join(" ;; ") + " ==> " + stable(ctx.exportDefinitions());
+      const line = outs.join(" ;; ") + " ==> " + stable(ctx.exportDefinitions());
+      if (!op.fresh) return line;
+      // the oracle of C16: each parser printed alone into a fresh context
+      const fresh = {};
+      for (const idx of new Set(op.calls)) {
+        const c = mk();
+        try {
+          // newly built validator objects: nothing cached on instances by earlier calls can leak into the oracle
+          const sch = rebuild()[idx].schemaWithContext(c);
+          fresh[idx] = { schema: JSON.parse(JSON.stringify(sch)), defs: JSON.parse(JSON.stringify(c.exportDefinitions())) };
+        } catch (e) {
+          fresh[idx] = { error: classify(e) };
+        }
+      }
+      let raw;
+      const c2 = mk();
+      const rawOuts = [];
+      const parsers2 = rebuild();
+      for (const idx of op.calls) {
+        try {
+          rawOuts.push(JSON.parse(JSON.stringify(parsers2[idx].schemaWithContext(c2))));
+        } catch (e) {
+          rawOuts.push({ __error: classify(e) });
+        }
+      }
+      raw = { outs: rawOuts, defs: JSON.parse(JSON.stringify(c2.exportDefinitions())) };
+      return JSON.stringify({ line, fresh, raw });
+    }
+    case "schemaRaw": {
+      try {
+        return JSON.stringify({ schema: p.schema() });
+      } catch (e) {
+        return JSON.stringify({ error: classify(e) });
+      }
     }
   }
   throw new Error("driver: unknown op " + op.op);
@@ -257,18 +292,22 @@ for await (const line of rl) {
   const job = JSON.parse(line);
   const res = { id: job.id, out: [] };
   try {
-    const named = {};
-    for (const [k, d] of Object.entries(job.env ?? {})) {
-      Object.defineProperty(named, k, { value: null, enumerable: true, writable: true, configurable: true });
-    }
-    for (const [k, d] of Object.entries(job.env ?? {})) named[k] = build(d, named, undefined);
-    const rts = job.rts ?? [job.rt];
-    const parsers = rts.map((d, i) =>
-      C.buildParserFromRuntype(build(d, named, undefined), (job.names ?? [])[i] ?? "T", job.hide ?? false),
-    );
+    const rebuild = () => {
+      const named = {};
+      for (const [k, d] of Object.entries(job.env ?? {})) {
+        Object.defineProperty(named, k, { value: null, enumerable: true, writable: true, configurable: true });
+      }
+      for (const [k, d] of Object.entries(job.env ?? {})) named[k] = build(d, named, undefined);
+      const rts = job.rts ?? [job.rt];
+      return rts.map((d, i) =>
+        C.buildParserFromRuntype(build(d, named, undefined), (job.names ?? [])[i] ?? "T", job.hide ?? false),
+      );
+    };
+    const parsers = rebuild();
+    const named = null;
     for (const op of job.ops) {
       try {
-        res.out.push(runOp(parsers, named, op));
+        res.out.push(runOp(parsers, named, op, rebuild));
       } catch (e) {
         res.out.push(classify(e));
       }
